@@ -827,9 +827,8 @@ def run(ctx: Ctx) -> None:
             seqs.append(({"kind": "single", "setup": sname, "n_setup": len(setup)}, setup + [o]))
         # every pair: the first operation changes something, the second observes or changes
         pairs = list(itertools.product(A, A))
-        if ctx.quick:
-            rng.shuffle(pairs)
-            pairs = pairs[:700]
+        rng.shuffle(pairs)
+        pairs = pairs[:700 if ctx.quick else 12000]        # of 64,009 per prepared state
         # pairs share their setup: run them as one sequence per first operation is not possible (state), so one trace each
         for o1, o2 in pairs:
             seqs.append(({"kind": "pair", "setup": sname, "n_setup": len(setup)}, setup + [o1, o2]))
